@@ -44,18 +44,18 @@ type c02Verdict struct {
 }
 
 type c02Harness struct {
-	r          *c02Runner
-	rec        *evi.Recorder
-	flakyCrash int
-	amplified  int
-	knownSlow  map[string]int
-	churn      int
-	maxChurn   uint64
-	maxChurnAt string
+	r                  *c02Runner
+	rec                *evi.Recorder
+	flakyCrash         int
+	amplified          int
+	knownSlow          map[string]int
+	churn              int
+	maxChurn           uint64
+	maxChurnAt         string
 	maxAmplification   float64
 	maxAmplificationAt string
-	slowFirst  int
-	remeasured int
+	slowFirst          int
+	remeasured         int
 }
 
 // c02TimeKeyName: every entry that renders a diagnostic tree shares the
@@ -447,7 +447,7 @@ func TestC02(t *testing.T) {
 	c02Consts = hostileConstants(rec.Pick(12000, 60000))
 	consts := c02Consts
 	consts = append(consts, loadCorpus()...)
-	rec.SetExtra("n_hostile_constants_and_corpus", len(consts))
+	rec.SetExtra("hostile_constants_and_corpus", len(consts))
 	sweepStart := time.Now()
 	sweepCalls, sweepBig := 0, 0
 	var sweepJudge, sweepBigDur time.Duration
@@ -575,12 +575,12 @@ sweep:
 		fmt.Printf("HARNESS-ERROR property=C02 time budget exhausted before all generated cases ran\n")
 		t.Errorf("time budget exhausted")
 	}
-	rec.SetExtra("n_entry_points", len(visible))
+	rec.SetExtra("entry_points", len(visible))
 	nVar := 0
 	for _, i := range visible {
 		nVar += c02Entries[i].Variants
 	}
-	rec.SetExtra("n_entry_point_variants", nVar)
+	rec.SetExtra("entry_point_variants", nVar)
 	rec.SetExtra("calls_per_entry_point", perEntry)
 	for k, v := range perEntryMs {
 		perEntryMs[k] = float64(int(v))
